@@ -108,19 +108,12 @@ def defs_file():
 
 
 def kfacts(K, m):
-    """facts deciding the constructor's guards, from the admissibility hypothesis"""
+    """the documented admissibility facts; the constructor's guards are decided from them semantically
+    (`epv_eos_ifs`), whatever form the code gives the comparisons"""
     n = CLASSES[K]['n']
-    o = ['  obtain ⟨hu, hr0, hP0, hm⟩ := hic',
-         '  have k0 : ¬ (0 ≤ ic.u_0) := not_le.mpr hu',
-         '  have k1 : ¬ (ic.rho_0 ≤ 0) := not_le.mpr hr0',
-         '  have k2 : ¬ (ic.P_0 < 0) := not_lt.mpr hP0']
+    o = ['  obtain ⟨hu, hr0, hP0, hm⟩ := hic']
     if n == 3 and m > 0:
         o.append('  have hPz : ic.P_0 = 0 := hm (by norm_num)')
-        o.append('  have k3 := eq_true hPz')
-    elif n == 2:
-        o.append('  have k3 := eq_true hP')
-    else:
-        o.append('  have k3 : True := trivial')
     return o
 
 
@@ -152,7 +145,7 @@ def entry(K, m, i, j, indent='    ', xs=''):
     eosdep = (i == c['row'] and j < 2)
     o = []
     o.append('have hc : HasDerivAt (fun r => %s.%s.F%d p %s) (%s.%s.F%d_d%s p %s) %s := by' % (R, L, i, ar, R, L, i, var, a, pt))
-    o.append('  apply %s.%s.F%d_hasDerivAt_%s <;> assumption' % (R, L, i, var))
+    o.append('  epv_eos_cert %s.%s.F%d_hasDerivAt_%s p %s' % (R, L, i, var, a))
     if eosdep:
         sargs = ['ρ', 'x']
         sargs[j] = 'r'
@@ -162,18 +155,18 @@ def entry(K, m, i, j, indent='    ', xs=''):
     o.append('have hev : (fun r => %s.F s ic %s %d) =ᶠ[nhds %s] fun r => %s%s.%s.F%d p %s := by' % (ns, ar, i, pt, extra, R, L, i, ar))
     if j == 0:
         o.append('  filter_upwards [isOpen_ne.mem_nhds hρ] with r hr')
+    elif j == 2:
+        o.append('  filter_upwards [isOpen_ne.mem_nhds hD] with r hr')
     else:
         o.append('  filter_upwards with r')
-        o.append('  have hr := hρ')
-    o.append('  simp only [%s.F, hp, epv_c16, epv_tree, epv_cond, epv_leaf, hr, %s%s, %s]' % (ns, xs, SIMPK, MAT))
-    o.append('  try ring')
+    o.append('  simp only [%s.F, hp] <;> epv_eos_res_eq' % ns)
     if eosdep:
         o.append('refine (((hs.%d.sub_const _).add hc).congr_of_eventuallyEq hev).congr_deriv ?_' % (j + 1))
     else:
         o.append('refine (hc.congr_of_eventuallyEq hev).congr_deriv ?_')
-    o.append('simp only [%s.J, hp, epv_c16, epv_tree, epv_cond, epv_leaf, epv_deriv, hρ, %s%s, %s]' % (ns, xs, SIMPK, MAT))
-    o.append('try field_simp')
-    o.append('try ring')
+    zs = [z for z in xs.replace(' ', '').split(',') if z]
+    sub = (' <;> (try simp only [%s])' % ', '.join(zs)) if zs else ''
+    o.append('simp only [%s.J, hp] <;> epv_eos_res_unfold%s <;> epv_eos_field' % (ns, sub))
     return [indent + x for x in o]
 
 
@@ -230,20 +223,28 @@ def det_theorems(K, m):
     o.append('theorem %s_det (s : EOS) (ic : NohIC) (%s : ℝ) %s (hρ : ρ ≠ 0) :\n    %s.detv s ic %s = (%s.J s ic %s).det := by' % (lo, a, hyps(K, m), ns, a, ns, a))
     o += kfacts(K, m)
     o.append('  rw [Matrix.det_fin_%s]' % {2: 'two', 3: 'three'}[n])
-    o.append('  simp only [%s.detv, %s.J, epv_c16, epv_tree, epv_cond, epv_leaf, hρ, %s, %s]' % (ns, ns, SIMPK, MAT))
-    o.append('  ring')
+    o.append('  simp only [%s.detv, %s.J] <;> epv_eos_res_eq' % (ns, ns))
     o.append('')
     o.append('/-- `F_prime_inv · F_prime = 1` wherever the class does not raise `ZeroDeterminantError` (`determinant ≠ 0`) -/')
     o.append('theorem %s_inverse (s : EOS) (ic : NohIC) (%s : ℝ) %s (hρ : ρ ≠ 0)%s\n    (hdet : %s.detv s ic %s ≠ 0) :\n    %s.Jinv s ic %s * %s.J s ic %s = 1 := by' % (
         lo, a, hyps(K, m), hD, ns, a, ns, a, ns, a))
     o += kfacts(K, m)
-    o.append('  generalize hd : %s.detv s ic %s = d at hdet' % (ns, a))
-    o.append('  simp only [%s.detv, epv_c16, epv_tree, epv_cond, epv_leaf, hρ, %s] at hd' % (ns, SIMPK))
+    o.append('  have hdet\' := hdet')
+    o.append('  simp only [%s.detv, epv_c16, epv_tree] at hdet\'' % ns)
+    o.append('  revert hdet\'')
+    o.append('  epv_eos_ifs')
+    o.append('  intro hdet\'')
+    o.append('  simp only [epv_leaf] at hdet\'')
+    o.append('  epv_eos_gen_ne hdet\'')
+    o.append('  -- the guards of all entries of `F_prime_inv` and `F_prime` are decided once, at matrix level')
+    o.append('  simp only [%s.Jinv, %s.J, epv_c16]' % (ns, ns))
+    o.append('  simp only [epv_tree]')
+    o.append('  epv_eos_ifs')
     o.append('  ext i j')
     o.append('  fin_cases i <;> fin_cases j <;>')
-    o.append('    simp only [%s.Jinv, %s.J, epv_c16, epv_tree, epv_cond, epv_leaf, hρ, hd, hdet, %s,' % (ns, ns, SIMPK))
-    o.append('      Matrix.mul_apply, Fin.sum_univ_%s, Matrix.one_apply, Fin.reduceEq, %s] <;>' % ({2: 'two', 3: 'three'}[n], MAT))
-    o.append('    (try field_simp) <;> (try simp only [← hd]) <;> (try field_simp) <;> (try ring)')
+    o.append('    (simp only [Matrix.mul_apply, Fin.sum_univ_%s, Matrix.one_apply, Fin.reduceEq, if_true, if_false, %s]' % ({2: 'two', 3: 'three'}[n], MAT))
+    o.append('     simp only [epv_leaf]')
+    o.append('     epv_eos_inv_entry)')
     o.append('')
     return o
 
@@ -268,9 +269,9 @@ def jump_theorem(K, m):
     o.append('    ∧ (%s).energyFlux D - (%s).energyFlux D = -(ρ * D) * C16.%s.F s ic ρ x D 2' % (shock, inc, ns))
     o.append('        - D * (s.e ic.rho_0 ic.P_0 + ic.u_0 ^ 2 / 2) * C16.%s.F s ic ρ x D 0 := by' % ns)
     o += kfacts(K, m)
-    S = 'simp only [C16.%s.F, shockedState, incomingState, State.massFlux, State.momFlux, State.energyFlux, epv_c16, epv_tree, epv_cond, epv_leaf, hρ, %s, %s]' % (ns, SIMPK, MAT)
+    S = 'simp only [C16.%s.F, shockedState, incomingState, State.massFlux, State.momFlux, State.energyFlux]' % ns
     o.append('  refine ⟨?_, ?_, ?_⟩ <;>')
-    o.append('    (' + S + ' <;> field_simp <;> ring)')
+    o.append('    (' + S + '; epv_eos_res_eq)')
     o.append('')
     o.append('/-- `%s`, symmetry %d (%s): the residual vanishes exactly when the shocked state at rest and the\nincoming gas (density ρ₀ (1 - u₀/D)^%d at the front) satisfy the three Rankine–Hugoniot conditions with front speed D -/' % (c['py'], m, what, m))
     o.append('theorem %s_zero_iff_jump (s : EOS) (ic : NohIC) (ρ x D : ℝ) (hic : ic.Admissible %d) (hρ : ρ ≠ 0) (hD : D ≠ 0) :\n    (∀ i, C16.%s.F s ic ρ x D i = 0) ↔ %s := by' % (lo, m, ns, st))
@@ -317,7 +318,7 @@ def props_file(K):
           'Planar symmetry and P₀ = 0 only (what the constructor accepts).  Hypotheses: what the constructor accepts'),
          ('(`NohIC.Admissible m`), ρ ≠ 0 (the guard of every method) and D ≠ 0 (the code divides by D).' if c['n'] == 3 else
           '(`NohIC.Admissible 0` and P₀ = 0) and ρ ≠ 0 (the guard of every method).  Inverse and determinant are hand-coded in the class.'),
-         '-/', 'import EPV.Lemmas.C16ResDefs', '', 'set_option linter.all false', 'set_option maxHeartbeats 1000000', '',
+         '-/', 'import EPV.Lemmas.C16ResDefs', 'import EPV.Lemmas.Bridge.EosTac', '', 'set_option linter.all false', 'set_option maxHeartbeats 1000000', '',
          'open EPV EPV.Gen EPV.Spec', '', 'namespace EPV.C16', '']
     pins = ' ∧ '.join('Res%sAbsS%d_res.okLeaves = %s' % (K, m, ok_leaf('Res%sAbsS%d_res' % (K, m))) for m in syms(K))
     o.append('/-- the traced models have exactly the leaves the proofs below name -/')
@@ -347,7 +348,7 @@ def c02_file():
          'gas satisfy the three Rankine–Hugoniot conditions (`EPV.Spec.StagnationShock`) — for ANY equation of state object',
          '(abstract `s : EOS`), every symmetry m = 0, 1, 2, every admissible initial state, ρ ≠ 0, D ≠ 0.',
          'The 2-unknown residuals (D eliminated) are in BBNohSimplified.lean.',
-         '-/', 'import EPV.Lemmas.C16ResDefs', '', 'set_option linter.all false', 'set_option maxHeartbeats 1000000', '',
+         '-/', 'import EPV.Lemmas.C16ResDefs', 'import EPV.Lemmas.Bridge.EosTac', '', 'set_option linter.all false', 'set_option maxHeartbeats 1000000', '',
          'open EPV EPV.Gen EPV.Spec', '', 'namespace EPV.C02', '']
     for K in ('Energy', 'Pressure'):
         for m in syms(K):
